@@ -45,8 +45,23 @@ def run_shard(spec, acc):
             cfg2 = dict(cfg, burn_in=None, alpha={'kind': 'fixed', 'weights': {a: 1.0 for a in sorted(('EQ:' + s_) for s_ in cfg['market']['assets'])[:2]}},
                         universe={'kind': 'static', 'assets': ['EQ:' + s_ for s_ in cfg['market']['assets']]})
             if 'late' not in cfg['market']:
+                first = None
+                if tr.session is not None and tr.error is None:
+                    first = (tr.session.get_equity_curve().copy(), [dict(x) for x in tr.session.target_allocations])
                 sesswl.run_case(cfg2, acc, PROP)
                 acc.count('C14:repeat_period_sessions')
+                if first is not None:
+                    # what the FIRST session reports is still its own after another session has run in the process
+                    again = tr.session.get_equity_curve()
+                    if list(again.index) != list(first[0].index) or list(again['Equity']) != list(first[0]['Equity']) or \
+                            [dict(x) for x in tr.session.target_allocations] != first[1]:
+                        from qsmon import core
+                        acc.violation(core.Violation(PROP, 'first-session-changed-by-a-later-one', 'after a second session ran, the first '
+                                                     'session reports %d equity points (%s ..) and %d allocation rows; right after its own run '
+                                                     'it reported %d (%s ..) and %d' % (len(again.index), list(again.index)[:1],
+                                                                                        len(tr.session.target_allocations), len(first[0].index),
+                                                                                        list(first[0].index)[:1], len(first[1])), {}), cfg)
+                    acc.count('C14:first_sessions_re_read_after_a_second_one')
         acc.evaluations += 1
         acc.count('sessions:%s' % cfg['rebalance'])
         acc.count('sessions:alpha:%s' % cfg['alpha']['kind'])
